@@ -2,6 +2,7 @@ from sa.selftest.harness import M, T
 
 X = "sharepoint2text/parsing/extractors/"
 PD = "sharepoint2text/parsing/extractors/pdf/pdf_extractor.py"
+DOCXF = "sharepoint2text/parsing/extractors/ms_modern/docx_extractor.py"
 MUTANTS = [
     M("epub-count-before-read", X + "epub_extractor.py", "            data = ctx.read_bytes(href)\n            # Count only images that could be read, so numbers stay gap-free\n            image_counter += 1\n", "            image_counter += 1\n            data = ctx.read_bytes(href)\n", "C14-PAIR"),
     M("docx-error-record-unnumbered", X + "ms_modern/docx_extractor.py", "DocxImage(rel_id=rel_id, error=str(e), image_index=image_counter)", "DocxImage(rel_id=rel_id, error=str(e))", "C14-PAIR"),
@@ -17,10 +18,12 @@ MUTANTS = [
     M("jpeg-advance-image-utils", X + "util/image_utils.py", "offset += 2 + segment_len", "offset += 4 + segment_len", "C14-JPEG"),
     M("filter-chain-first", PD, "        filter_type = filter_type[-1] if filter_type else \"\"", "        filter_type = filter_type[0] if filter_type else \"\"", "C14-CHAIN"),
     M("flate-content-type-jpeg", PD, '    "/FlateDecode": "image/png",', '    "/FlateDecode": "image/jpeg",', "C14-CHAIN"),
+    M("docx-extension-not-lowered", DOCXF, '            ext = target.rsplit(".", 1)[-1].lower()', '            ext = target.rsplit(".", 1)[-1]', "C14-TYPE"),
 ]
 TWINS = [
     T("counter-renamed-epub", X + "epub_extractor.py", "            data = ctx.read_bytes(href)\n            # Count only images that could be read, so numbers stay gap-free\n            image_counter += 1\n", "            data = ctx.read_bytes(href)\n            image_counter = image_counter + 0\n            image_counter += 1\n"),
     T("filter-chain-len-minus-one", PD, "        filter_type = filter_type[-1] if filter_type else \"\"", "        filter_type = filter_type[len(filter_type) - 1] if filter_type else \"\""),
+    T("docx-extension-casefold", DOCXF, '            ext = target.rsplit(".", 1)[-1].lower()', '            ext = target.rsplit(".", 1)[-1].casefold()'),
 ]
 
 # --- seeded changes kept under /verif/seeded (sub-agents saw only the property text); each must be reported by the named rule
@@ -33,5 +36,7 @@ SEEDED = [
     ("C14-3", "C14-JPEG"),
     ("C14-6", "C14-CHAIN"),
     ("C14-7", "C14-JPEG"),
+    ("C14-8", "C14-JPEG"),
+    ("C14-9", "C14-TYPE"),
 ]
 MUTANTS = list(MUTANTS) + [_P("seed-" + sid, _os.path.join(_SEEDS, sid, "patch.diff"), rule) for sid, rule in SEEDED if _os.path.exists(_os.path.join(_SEEDS, sid, "patch.diff"))]
